@@ -590,6 +590,22 @@ Proof.
     unfold p_first in F. cbn [ash] in F. destruct n; discriminate.
 Qed.
 
+Theorem fall_first_equiv : forall a u, p_fall a = Ok u -> p_first_index true row_ge a = p_first None u.
+Proof.
+  intros a u R. destruct (p_first None u) as [v| |] eqn:F.
+  - apply (fall_first_is_first_max true a u v R F).
+  - unfold p_fall in R. unfold p_first_index.
+    destruct (negb (sortable a)); try discriminate.
+    destruct (ash a) as [|n s]; try discriminate.
+    inversion R; subst u; clear R. unfold p_first in F. cbn [ash] in F.
+    destruct n as [|n]; [|discriminate].
+    pose proof (chunk_length (prodn s) 0 (adata a)) as L.
+    destruct (chunk (prodn s) 0 (adata a)); [reflexivity|discriminate].
+  - unfold p_fall in R. destruct (negb (sortable a)); try discriminate.
+    destruct (ash a) as [|n s]; try discriminate. inversion R; subst u.
+    unfold p_first in F. cbn [ash] in F. destruct n; discriminate.
+Qed.
+
 (** rule 6: (Rise, Last) -> LastMaxIndex *)
 Theorem rule_rise_last : prule_sound (tuple_rule [PP 34; PP 32] [nLastMaxIndex]).
 Proof.
@@ -837,6 +853,38 @@ Proof.
     destruct (N.eqb id 43) eqn:E43; [apply N.eqb_eq in E43; subst id; reflexivity|].
     discriminate.
 Qed.
+
+(* ------------------------------------------------------------------ fused primitives: tie and tied extremes *)
+
+(** The semantics of a fused primitive is a function of the array alone: the sortedness marks an
+    implementation value carries are not an input of [prim_sem].  The correspondence check runs the
+    real fused primitive on marked and unmarked copies of arrays with tied extremes and compares
+    with [prim_sem]: 0 = agreement. *)
+Definition fcase_code (c : N * arr * option Z) : N :=
+  let '(id, a, expect) := c in
+  match prim_sem id [a], expect with
+  | Ok [v], Some z => if arr_eqb v (num z) then 0%N else 1%N
+  | Err, None => 0%N
+  | Unspec, _ => 2%N
+  | _, _ => 1%N end.
+Fixpoint fcodes_from (i : N) (l : list (N * arr * option Z)) : list (N * N) :=
+  match l with [] => [] | c :: t =>
+    let k := fcase_code c in
+    if N.eqb k 0 then fcodes_from (i + 1)%N t else (i, k) :: fcodes_from (i + 1)%N t end.
+
+(** tied extremes: on [1 2 3 3] (ascending, maximum repeated) and [3 3 1 1] (descending, both
+    repeated) the four fused index primitives give the leftmost / rightmost extremal row, exactly
+    as first / last of rise / fall do *)
+Example tied_extremes :
+  let up := Arr TNum [4%nat] [ENum 1; ENum 2; ENum 3; ENum 3] in
+  let dn := Arr TNum [4%nat] [ENum 3; ENum 3; ENum 1; ENum 1] in
+  let r2 := Arr TNum [3%nat; 2%nat] [ENum 3; ENum 4; ENum 1; ENum 2; ENum 3; ENum 4] in
+  map (fun a => (run [nFall; nFirst] [a], run [nRise; nLast] [a], run [nRise; nFirst] [a], run [nFall; nLast] [a])) [up; dn; r2] =
+  map (fun a => (run [nFirstMaxIndex] [a], run [nLastMaxIndex] [a], run [nFirstMinIndex] [a], run [nLastMinIndex] [a])) [up; dn; r2]
+  /\ run [nFirstMaxIndex] [up] = Ok [num 2] /\ run [nLastMaxIndex] [up] = Ok [num 3]
+  /\ run [nFirstMinIndex] [dn] = Ok [num 2] /\ run [nLastMinIndex] [dn] = Ok [num 3]
+  /\ run [nFirstMaxIndex] [r2] = Ok [num 0] /\ run [nLastMaxIndex] [r2] = Ok [num 2].
+Proof. vm_compute. auto 10. Qed.
 
 (* ------------------------------------------------------------------ records of repaired defects *)
 
